@@ -29,12 +29,6 @@ OffIntersection(in1, in2, m, S) ==
   IF in1 = <<>> \/ in2 = <<>> THEN [err |-> FALSE, out |-> <<>>]
   ELSE LET r == ILoop(ExtInf(in1), ExtInf(in2), <<>>, <<>>, m, S) IN [err |-> r.err, out |-> r.out]
 
-\* append when the value changes, or for the last element (`if v != prev or i == len - 1`)
-RECURSIVE MergeEq(_, _, _, _)
-MergeEq(sl, i, pv, acc) ==
-  IF i > Len(sl) THEN acc
-  ELSE MergeEq(sl, i + 1, sl[i][2], IF sl[i][2] # pv \/ i = Len(sl) THEN Append(acc, sl[i]) ELSE acc)
-
 \* forward fold of once / historically (untimed), then the merge of equal values
 RECURSIVE RunF(_, _, _, _, _)
 RunF(sl, i, acc, res, isMax) ==
@@ -132,20 +126,22 @@ FutSweep(kind, a, b, sl) ==
   LET f == FutFeed(kind, a, b, <<>>, sl, Len(sl)) IN
   IF f.err THEN [err |-> TRUE, out |-> <<>>] ELSE [err |-> FALSE, out |-> Clip0(f.out, 1, <<>>)]
 
-OffPred(cmp, l, r, S) ==
+OffPred(p, l, r, S, Md) ==
   LET x == OffIntersection(l, r, "sub", S) IN
-  IF x.err THEN x ELSE [err |-> FALSE, out |-> MergeEq(MapSeq(x.out, LAMBDA v : CmpMap(cmp, v)), 1, NaNV, <<>>)]
+  IF x.err THEN x
+  ELSE LET base == MergeEq(MapSeq(x.out, LAMBDA v : CmpMap(p.cmp, v)), 1, NaNV, <<>>) IN
+       [err |-> FALSE, out |-> IF Insensitive(p, Md) THEN MapSeq(base, LAMBDA v : IAVal(Md, p.cmp, v)) ELSE base]
 
 OfflineCOK(p) == ~HasOp(p, {"next", "snext", "prev", "sprev", "rise", "fall", "precT", "unless", "unlessT", "sqrt", "exp", "ln", "pow", "log"})
 
-RECURSIVE OffC(_, _, _)
-OffC(p, W, S) ==
+RECURSIVE OffCM(_, _, _, _)
+OffCM(p, W, S, Md) ==
   LET E == [err |-> TRUE, out |-> <<>>]
       OK(o) == [err |-> FALSE, out |-> o] IN
   IF p.op = "var" THEN OK(W[p.v])
   ELSE IF p.op = "const" THEN OK(<<<<0, p.c>>, <<PInf, p.c>>>>)
   ELSE IF p.op \in Un1 THEN
-    LET c == OffC(p.l, W, S) IN
+    LET c == OffCM(p.l, W, S, Md) IN
     IF c.err THEN c
     ELSE CASE p.op \in {"not", "neg"} -> OK(MapSeq(c.out, Neg))
            [] p.op = "abs"  -> OK(MapSeq(c.out, Abs))
@@ -157,10 +153,10 @@ OffC(p, W, S) ==
            [] p.op \in {"evT", "alwT"} -> FutSweep(p.op, p.a, p.b, c.out)
            [] OTHER -> E
   ELSE
-    LET cl == OffC(p.l, W, S)
-        cr == OffC(p.r, W, S) IN
+    LET cl == OffCM(p.l, W, S, Md)
+        cr == OffCM(p.r, W, S, Md) IN
     IF cl.err \/ cr.err THEN E
-    ELSE CASE p.op = "pred"  -> OffPred(p.cmp, cl.out, cr.out, S)
+    ELSE CASE p.op = "pred"  -> OffPred(p, cl.out, cr.out, S, Md)
            [] p.op = "since" -> OffSince(cl.out, cr.out, S)
            [] p.op = "until" -> OffUntil(cl.out, cr.out, S)
            [] p.op = "sinceT" ->
@@ -182,14 +178,17 @@ OffC(p, W, S) ==
            [] p.op \in {"and", "or", "implies", "iff", "xor", "add", "sub", "mul", "div"} -> OffIntersection(cl.out, cr.out, p.op, S)
            [] OTHER -> E
 
+OffC(p, W, S) == OffCM(p, W, S, StdMode)
+
 \* property C04 for one (formula, signals): monotone, starts at the domain begin, denotes SigC on the domain
-OffDenotes(p, W, vs, S) ==
-  LET r == OffC(p, W, S)
+OffDenotesM(p, W, vs, S, Md) ==
+  LET r == OffCM(p, W, S, Md)
       d0 == DomBegin(W, vs)
       d1 == DomEnd(W, vs)
       dS == d1 + Settle(p)
       n == dS - d0 + 1
-      R == SigC(p, CellsOf(W, vs, d0, dS), n, S, [sem |-> "standard", io |-> [v \in vs |-> "output"]]) IN
+      R == SigC(p, CellsOf(W, vs, d0, dS), n, S, Md) IN
   /\ ~r.err /\ r.out # <<>> /\ Monotone(r.out) /\ FirstT(r.out) = d0
   /\ \A t \in d0..d1 : StepAt(r.out, t) = R[t - d0 + 1]
+OffDenotes(p, W, vs, S) == OffDenotesM(p, W, vs, S, [sem |-> "standard", io |-> [v \in vs |-> "output"]])
 =============================================================================
